@@ -113,3 +113,5 @@ Print Assumptions C10_catch_up_then_live.
 Print Assumptions C10_history_shape.
 Print Assumptions C10_latest_once_each.
 Print Assumptions C10_spec_sound.
+Print Assumptions C10_domain_inhabited.
+Print Assumptions C10_catch_up_hypotheses_satisfiable.
